@@ -29,63 +29,55 @@ impl Ipv6Address {
         )
     }
 
-    /// Create an IPv6 address from a string that uses zero compression
+    /// Create an IPv6 address from its text form (RFC 4291, section 2.2):
+    /// eight groups of one to four hexadecimal digits, where at most one
+    /// "::" may stand for one or more groups of zeros, at any position.
     pub fn from_str(s: &str) -> Result<Self, &'static str> {
-        // Split the string by colons to get each segment
-        let segments: Vec<&str> = s.split(':').collect();
+        const ERR: &str = "Invalid IPv6 address format";
 
-        // Ensure we have at most 8 segments for a valid IPv6 address
-        if segments.len() > 8 {
-            return Err("Invalid IPv6 address format");
+        fn parse_groups(s: &str) -> Result<Vec<u16>, &'static str> {
+            if s.is_empty() {
+                return Ok(Vec::new());
+            }
+            let mut groups = Vec::new();
+            for segment in s.split(':') {
+                if segment.is_empty()
+                    || segment.len() > 4
+                    || !segment.bytes().all(|b| b.is_ascii_hexdigit())
+                {
+                    return Err("Invalid segment in IPv6 address");
+                }
+                match u16::from_str_radix(segment, 16) {
+                    Ok(value) => groups.push(value),
+                    Err(_) => return Err("Invalid segment in IPv6 address"),
+                }
+            }
+            Ok(groups)
         }
 
         let mut parts = [0u16; 8];
-        let mut part_index = 0; // Index to fill in the parts array
-
-        // Flags to handle zero compression
-        let mut compressed = false;
-        let mut compression_index = 0; // Index where compression starts
-
-        for (i, &segment) in segments.iter().enumerate() {
-            if segment.is_empty() {
-                if compressed {
-                    return Err("Invalid IPv6 address format");
+        match s.find("::") {
+            Some(pos) => {
+                let (head, tail) = (&s[..pos], &s[pos + 2..]);
+                if tail.contains("::") {
+                    return Err(ERR);
                 }
-                compressed = true;
-                compression_index = i;
-                continue;
+                let head = parse_groups(head)?;
+                let tail = parse_groups(tail)?;
+                // "::" stands for at least one group of zeros
+                if head.len() + tail.len() > 7 {
+                    return Err(ERR);
+                }
+                parts[..head.len()].copy_from_slice(&head);
+                parts[8 - tail.len()..].copy_from_slice(&tail);
             }
-
-            if part_index >= 8 {
-                return Err("Invalid IPv6 address format");
+            None => {
+                let groups = parse_groups(s)?;
+                if groups.len() != 8 {
+                    return Err(ERR);
+                }
+                parts.copy_from_slice(&groups);
             }
-
-            // Convert segment to u16 value
-            match u16::from_str_radix(segment, 16) {
-                Ok(value) => parts[part_index] = value,
-                Err(_) => return Err("Invalid segment in IPv6 address"),
-            }
-
-            part_index += 1;
-        }
-
-        // Handle zero compression
-        if compressed {
-            // Calculate the number of segments we need to shift
-            let shift = 8 - part_index;
-
-            // Shift parts to make room for the compressed segments
-            for i in (compression_index + shift..8).rev() {
-                parts[i] = parts[i - shift];
-            }
-
-            // Fill in the compressed segments with zeros
-            for part in parts.iter_mut().skip(compression_index).take(shift) {
-                *part = 0;
-            }
-        } else if part_index != 8 {
-            // If no compression, ensure we have exactly 8 parts
-            return Err("Invalid IPv6 address format");
         }
 
         Ok(Self(
